@@ -49,6 +49,21 @@ def req_of(name, i=0):
         return dict(kind='req', fc=16, address=8, count=2, byte_count=4, registers=[0x0B00 + i, 0x0C00 + i])
     if name == 'mask-write':
         return dict(kind='req', fc=22, address=9, and_mask=0x00FF, or_mask=0x1200)
+    if name == 'read-discrete':
+        return dict(kind='req', fc=2, address=2, count=9)
+    if name == 'read-input':
+        return dict(kind='req', fc=4, address=1 + i, count=3)
+    if name == 'write-coil':
+        return dict(kind='req', fc=5, address=3, value=0xFF00)
+    if name == 'write-coils':
+        return dict(kind='req', fc=15, address=2, count=10, byte_count=2, bits=[True, False, True, True, False, False, True, False, True, True])
+    if name == 'read-write-registers':
+        return dict(kind='req', fc=23, read_address=2, read_count=5, write_address=8, write_count=2, write_byte_count=4,
+                    write_registers=[0x0D00 + i, 0x0E00 + i])
+    if name == 'diagnostic-0E':
+        return dict(kind='req', fc=8, sub=0x0E, data=[0])               # Return Slave Message Count
+    if name == 'device-information':
+        return dict(kind='req', fc=0x2B, read_code=1, object_id=0)
     raise ValueError(name)
 
 
@@ -70,7 +85,15 @@ class Sim(object):
     def own_reply(self, tid, unit, m, exception=False):
         if exception:
             return bytes([m['fc'] | 0x80, 2])
-        r = datamodel.execute(self.store, m) if m['fc'] in datamodel.TABLE_OF else dict(kind='rsp', fc=8, sub=m['sub'], data=list(m['data']))
+        if m['fc'] in datamodel.TABLE_OF:
+            r = datamodel.execute(self.store, m)
+        elif m['fc'] == 0x2B:
+            r = dict(kind='rsp', fc=0x2B, read_code=m['read_code'], conformity=0x01, more=0, next_id=0,
+                     objects=[(0, b'Vendor'), (1, b'PC-7'), (2, b'V2.11')])
+        elif m['sub'] == 0x0E:
+            r = dict(kind='rsp', fc=8, sub=0x0E, data=[0x0107])
+        else:
+            r = dict(kind='rsp', fc=8, sub=m['sub'], data=list(m['data']))
         return pdu.encode(r)
 
     def push(self, data, meta, delay=0.0):
@@ -252,6 +275,17 @@ def call(c, m, req):
         return c.write_registers(m['address'], list(m['registers']), unit=UNIT)
     if fc == 22:
         return c.mask_write_register(m['address'], m['and_mask'], m['or_mask'], unit=UNIT)
+    if fc == 2:
+        return c.read_discrete_inputs(m['address'], m['count'], unit=UNIT)
+    if fc == 4:
+        return c.read_input_registers(m['address'], m['count'], unit=UNIT)
+    if fc == 5:
+        return c.write_coil(m['address'], bool(m['value']), unit=UNIT)
+    if fc == 15:
+        return c.write_coils(m['address'], list(m['bits']), unit=UNIT)
+    if fc == 23:
+        return c.readwrite_registers(read_address=m['read_address'], read_count=m['read_count'], write_address=m['write_address'],
+                                     write_registers=list(m['write_registers']), unit=UNIT)
     return c.execute(req)
 
 
